@@ -83,15 +83,15 @@ type Query struct {
 
 // Ins tells how a run of rows is inserted in the session layer.
 type Ins struct {
-	N         int   `json:"n"` // rows in this statement
-	Ext       bool  `json:"ext,omitempty"`
-	ParamFmt  int16 `json:"param_fmt,omitempty"`
-	Declare   bool  `json:"declare,omitempty"`
-	Spelling  int   `json:"spelling,omitempty"`
-	Cast      bool  `json:"cast,omitempty"`
-	ColList   bool  `json:"col_list,omitempty"`
-	MixedFmt  bool  `json:"mixed_fmt,omitempty"`
-	Describe  string `json:"describe,omitempty"`
+	N        int    `json:"n"` // rows in this statement
+	Ext      bool   `json:"ext,omitempty"`
+	ParamFmt int16  `json:"param_fmt,omitempty"`
+	Declare  bool   `json:"declare,omitempty"`
+	Spelling int    `json:"spelling,omitempty"`
+	Cast     bool   `json:"cast,omitempty"`
+	ColList  bool   `json:"col_list,omitempty"`
+	MixedFmt bool   `json:"mixed_fmt,omitempty"`
+	Describe string `json:"describe,omitempty"`
 }
 
 // Case is shared by the rewrite and session layers.
@@ -128,8 +128,9 @@ func marker(t *rapid.T, label string) string {
 	return "MRK" + hex.EncodeToString(b[:])
 }
 
-var intPool32 = []int64{1234567, 12345678, 123456789, -1234567, 2147483647, -2147483647, 1000000, 424242, 4242421}
-var intPool64 = []int64{1234567, 12345678, 1234567890123, 12345678901234, -1234567890123, 9223372036854775806, 4294967301, 42949673011}
+// integer plaintexts have at least 9 digits, so that finding one as a token of a forwarded statement means a leak
+var intPool32 = []int64{123456789, 1234567890, -123456789, 2147483647, -2147483647, 100000000, 424242424, 1000000007}
+var intPool64 = []int64{123456789, 1234567890, 1234567890123, 12345678901234, -1234567890123, 9223372036854775806, 4294967301, 42949673011}
 
 var textTails = []string{"", "", " plain tail", "'quote", `back\slash`, "ünï", "\n", `"dq"`, "%%%", "$1", ";--", "''", `\\`, "0x41", `\x41`}
 
@@ -141,7 +142,11 @@ func genBase(t *rapid.T, lt pgsess.ColType, label string) pgprog.Val {
 	case pgsess.Int8:
 		return pgprog.Val{B: []byte(strconv.FormatInt(rapid.SampledFrom(intPool64).Draw(t, label+".i"), 10))}
 	case pgsess.Text:
-		return pgprog.Val{B: []byte(marker(t, label) + rapid.SampledFrom(textTails).Draw(t, label+".tail"))}
+		m := marker(t, label)
+		if rapid.IntRange(0, 11).Draw(t, label+".0x") == 11 {
+			return pgprog.Val{B: []byte("0x" + m[3:])} // a string that reads like a hexadecimal number
+		}
+		return pgprog.Val{B: []byte(m + rapid.SampledFrom(textTails).Draw(t, label+".tail"))}
 	}
 	head := rapid.SampledFrom([][]byte{nil, nil, nil, {0}, {0xc3}, []byte(`\`), []byte("0x")}).Draw(t, label+".head")
 	tail := rapid.OneOf(
@@ -154,11 +159,12 @@ func genBase(t *rapid.T, lt pgsess.ColType, label string) pgprog.Val {
 // prefixOf: a proper prefix of v (keeps a recognisable marker for text/bytes when it can).
 func prefixOf(t *rapid.T, lt pgsess.ColType, v pgprog.Val, label string) pgprog.Val {
 	if isInt(lt) {
+		// dropping the last digit always gives a value of the type that is a proper prefix
 		s := string(v.B)
-		if len(s) > 5 {
+		if len(strings.TrimPrefix(s, "-")) > 1 {
 			return pgprog.Val{B: []byte(s[:len(s)-1])}
 		}
-		return pgprog.Val{B: []byte(s + "0")} // cannot shorten: the stored one becomes the prefix
+		return pgprog.Val{B: []byte(s + "0")}
 	}
 	i := bytes.Index(v.B, []byte("MRK"))
 	min := 1
@@ -184,14 +190,15 @@ func prefixOf(t *rapid.T, lt pgsess.ColType, v pgprog.Val, label string) pgprog.
 func extOf(t *rapid.T, lt pgsess.ColType, v pgprog.Val, label string) pgprog.Val {
 	if isInt(lt) {
 		s := string(v.B)
-		limit := 9
+		bits := 32
 		if lt == pgsess.Int8 {
-			limit = 17
+			bits = 64
 		}
-		if len(strings.TrimPrefix(s, "-")) < limit {
-			return pgprog.Val{B: []byte(s + rapid.SampledFrom([]string{"0", "7"}).Draw(t, label+".d"))}
+		ext := s + rapid.SampledFrom([]string{"0", "7"}).Draw(t, label+".d")
+		if _, err := strconv.ParseInt(ext, 10, bits); err == nil {
+			return pgprog.Val{B: []byte(ext)}
 		}
-		return pgprog.Val{B: []byte(s[:len(s)-1])}
+		return pgprog.Val{B: []byte(s[:len(s)-1])} // out of range: take the prefix instead
 	}
 	suf := rapid.SampledFrom([]string{"x", " ", "'", "0"}).Draw(t, label+".suf")
 	return pgprog.Val{B: append(append([]byte{}, v.B...), suf...)}
@@ -211,8 +218,11 @@ type genOpts struct {
 func genCol(t *rapid.T) pgprog.ColSpec {
 	c := pgprog.GenCol(t, "s", []string{pgprog.KSearch}, "alice")
 	// sometimes the column belongs to another client than the one that is connected (client_id: bobby)
-	if rapid.IntRange(0, 9).Draw(t, "s.foreign") == 0 {
+	if rapid.IntRange(0, 9).Draw(t, "s.foreign") == 9 {
 		c.ClientID = "bobby"
+		if c.OnFail == "error" {
+			c.OnFail = "" // alice cannot decrypt bobby's values: the error policy would fail every read (C19's subject)
+		}
 	}
 	return c
 }
@@ -231,11 +241,11 @@ func genCase(t *rapid.T, o genOpts) Case {
 	if shape == "not" || shape == "not-and" {
 		hasNot = true
 	}
-	c.Q.Alias = rapid.IntRange(0, 3).Draw(t, "alias") == 0
+	c.Q.Alias = rapid.IntRange(0, 3).Draw(t, "alias") == 3
 	if !c.Q.Alias {
-		c.Q.Qualify = rapid.IntRange(0, 3).Draw(t, "qualify") == 0
+		c.Q.Qualify = rapid.IntRange(0, 3).Draw(t, "qualify") == 3
 	}
-	c.Q.Join = rapid.IntRange(0, 4).Draw(t, "join") == 0
+	c.Q.Join = rapid.IntRange(0, 4).Draw(t, "join") == 4
 	c.UConf = rapid.Bool().Draw(t, "uconf")
 	// ---- stored plaintexts
 	npool := rapid.IntRange(1, 3).Draw(t, "npool")
@@ -308,11 +318,11 @@ func genCase(t *rapid.T, o genOpts) Case {
 		case "empty":
 			k.Val = pgprog.Val{B: []byte{}}
 		}
-		k.Neg = rapid.IntRange(0, 3).Draw(t, label+".neg") == 0
+		k.Neg = rapid.IntRange(0, 3).Draw(t, label+".neg") == 3
 		if k.Neg {
 			k.Bang = rapid.Bool().Draw(t, label+".bang")
 		}
-		k.Flip = rapid.IntRange(0, 3).Draw(t, label+".flip") == 0
+		k.Flip = rapid.IntRange(0, 3).Draw(t, label+".flip") == 3
 		forms := []string{"lit", "lit", "lit", "ptext", "pbin"}
 		if !o.mysql && !isInt(lt) {
 			forms = append(forms, "cast", "pcast")
@@ -340,7 +350,7 @@ func genCase(t *rapid.T, o genOpts) Case {
 		default:
 			k.Arg = rapid.SampledFrom(plainWords).Draw(t, label+".arg")
 		}
-		if rapid.IntRange(0, 3).Draw(t, label+".pform") == 0 {
+		if rapid.IntRange(0, 3).Draw(t, label+".pform") == 3 {
 			if o.mysql {
 				k.PForm = "param"
 			} else {
@@ -393,13 +403,19 @@ func genCase(t *rapid.T, o genOpts) Case {
 			}
 			c.Ins = append(c.Ins, in)
 		}
-		if nrows >= 2 && rapid.IntRange(0, 1).Draw(t, "swap") == 0 {
-			a := rapid.IntRange(0, nrows-1).Draw(t, "swap.a")
-			b := rapid.IntRange(0, nrows-2).Draw(t, "swap.b")
-			if b >= a {
-				b++
+		// two rows with different, non-empty plaintexts (when there are any) get their indexes swapped afterwards
+		var pairs [][2]int
+		for a := range c.Rows {
+			for b := a + 1; b < len(c.Rows); b++ {
+				ra, rb := c.Rows[a].S, c.Rows[b].S
+				if !ra.Null && !rb.Null && len(ra.B) > 0 && len(rb.B) > 0 && !bytes.Equal(ra.B, rb.B) {
+					pairs = append(pairs, [2]int{a, b})
+				}
 			}
-			c.Swap = []int{a, b}
+		}
+		if len(pairs) > 0 && rapid.IntRange(0, 3).Draw(t, "swap") != 0 {
+			p := pairs[rapid.IntRange(0, len(pairs)-1).Draw(t, "swap.pair")]
+			c.Swap = []int{p[0], p[1]}
 		}
 	}
 	return c
@@ -714,6 +730,34 @@ func secretMarkers(c Case) [][]byte {
 		}
 	})
 	return out
+}
+
+// clearInts: searched integer values (they cannot carry a marker) that appear as a whole token in text.
+func clearInts(c Case, text []byte) []byte {
+	if !isInt(c.Col.Logical()) {
+		return nil
+	}
+	var found []byte
+	digit := func(b byte) bool { return b >= '0' && b <= '9' }
+	walkCond(c.Q.Where, func(k Cond) {
+		if k.K != "s" || k.Val.Null || len(k.Val.B) < 9 || found != nil {
+			return
+		}
+		v := bytes.TrimPrefix(k.Val.B, []byte("-"))
+		for off := 0; ; {
+			i := bytes.Index(text[off:], v)
+			if i < 0 {
+				return
+			}
+			i += off
+			if (i == 0 || !digit(text[i-1])) && (i+len(v) == len(text) || !digit(text[i+len(v)])) && !(i >= 2 && text[i-1] == 'x' && text[i-2] == '\\') {
+				found = k.Val.B
+				return
+			}
+			off = i + 1
+		}
+	})
+	return found
 }
 
 func sameIDs(a, b []int) bool {
